@@ -20,7 +20,8 @@ LEVEL = "proof"
 MODULE = "Sqfs.Props.C03"
 REQUIRED = ["Sqfs.C03.conseq_count_ok", "Sqfs.C03.dir_end_headers_ok", "Sqfs.C03.add_entry_name_fits",
             "Sqfs.C03.meta_block_le_8k", "Sqfs.C03.meta_stored_le_unpacked", "Sqfs.C03.data_block_size_rule",
-            "Sqfs.C03.id_count_fits"]
+            "Sqfs.C03.id_count_fits", "Sqfs.C03.finish_order", "Sqfs.C03.pad_multiple",
+            "Sqfs.C03.inode_numbers_bijective", "Sqfs.C03.children_before_parent"]
 
 K_D11 = "D11:lz4-block-not-smaller"
 K_D8 = "D8:id-count-wraps"
@@ -31,6 +32,20 @@ NOIDX = 0xFFFFFFFF
 
 def hx(b):
     return b.hex() if b else "-"
+
+
+MAX_REPORTS = 12
+_reported = [0]
+
+
+def report(ctx, key, what, replay, found_input=True):
+    """ctx.violation with a cap on the number of VIOLATION lines of one run (known findings always go through)"""
+    if ctx.known_finding(key) is None:
+        _reported[0] += 1
+        if _reported[0] > MAX_REPORTS:
+            ctx.cov["violations_suppressed_after_cap"] = _reported[0] - MAX_REPORTS
+            return
+    ctx.violation(key, what, replay, found_input)
 
 
 def shx(cmd, **kw):
@@ -63,7 +78,7 @@ def gen_entries(rng, n, kind):
         elif kind == "wrap" and rng.random() < 0.2:
             num = rng.choice([1, 2, 0xFFFFFFFF, 0xFFFFFFFE, 0x80000000, 0x7FFFFFFF])
         num = (num + 1) % (1 << 32) or 1
-        nl = rng.choice([1, 4, 9, 30, 100, 250]) if kind != "long" else rng.choice([200, 255, 256])
+        nl = 256 if kind == "long256" else rng.choice([1, 4, 9, 30, 100, 250]) if kind != "long" else rng.choice([200, 255, 256])
         mode = rng.choice([0o100644, 0o100755, 0o40755, 0o120777, 0o60600, 0o20600, 0o10644, 0o140644])
         out.append((gen_name(rng, nl), num, (blk << 16) | rng.randrange(0, 8192), mode))
     return out
@@ -88,7 +103,7 @@ def gen_ops(ctx):
     # conseq / dirw
     shapes = [("same", n) for n in (1, 2, 255, 256, 257, 300, 513)] + \
              [("blocks", n) for n in (5, 40, 300)] + [("jumps", n) for n in (5, 40, 300)] + \
-             [("wrap", 12), ("long", 40), ("long", 300)]
+             [("wrap", 12), ("long", 40), ("long", 300), ("long256", 249), ("long256", 255)]
     reps = 2 if q else 12
     for _ in range(reps):
         for kind, n in shapes:
@@ -297,6 +312,115 @@ def monitor_idsrange(m, ans):
 MONITORS = {"conseq": monitor_conseq, "meta": monitor_meta, "blk": monitor_blk, "ids": monitor_ids, "idsrange": monitor_idsrange}
 
 
+def gen_spec(rng, depth, width, hl):
+    out = []
+    for _ in range(rng.randrange(0, width + 1)):
+        r = rng.random()
+        if r < 0.25 and depth > 0:
+            out.append("(" + gen_spec(rng, depth - 1, width, hl) + ")")
+        elif r < 0.25 + hl:
+            out.append("h")
+        else:
+            out.append("f")
+    return "".join(out)
+
+
+def parse_num(ans):
+    """'(4 (2 - (1)3)5 6)7 count=7' -> (nested structure, count); structure: ('d', n, [children]) | ('f', n) | ('h',)"""
+    body, cnt = ans.rsplit(" count=", 1)
+    pos = [0]
+
+    def forest():
+        kids = []
+        while pos[0] < len(body) and body[pos[0]] != ")":
+            c = body[pos[0]]
+            if c == " ":
+                pos[0] += 1
+            elif c == "-":
+                kids.append(("h",)); pos[0] += 1
+            elif c == "(":
+                pos[0] += 1
+                k = forest()
+                pos[0] += 1          # ')'
+                kids.append(("d", num(), k))
+            else:
+                kids.append(("f", num()))
+        return kids
+
+    def num():
+        j = pos[0]
+        while j < len(body) and body[j].isdigit():
+            j += 1
+        v = int(body[pos[0]:j]); pos[0] = j
+        return v
+
+    t = forest()
+    return t[0], int(cnt)
+
+
+def monitor_num(m, ans):
+    try:
+        root, cnt = parse_num(ans)
+    except (ValueError, IndexError):
+        return ["answer does not parse: " + ans[:80]]
+    bad, allnums = [], []
+
+    def walk(n):
+        if n[0] == "h":
+            return []
+        if n[0] == "f":
+            allnums.append(n[1]); return [n[1]]
+        sub = []
+        for k in n[2]:
+            sub += walk(k)
+        if any(x >= n[1] for x in sub):
+            bad.append("directory %d has a descendant with a larger number" % n[1])
+        allnums.append(n[1])
+        return sub + [n[1]]
+
+    walk(root)
+    if sorted(allnums) != list(range(1, cnt + 1)):
+        bad.append("numbers are not exactly 1..%d" % cnt)
+    want = m["spec"].count("f") + m["spec"].count("(") + 1
+    if cnt != want:
+        bad.append("count %d for %d inode-bearing nodes" % (cnt, want))
+    return bad
+
+
+def numbering(ctx, harness_n):
+    rng = ctx.rng
+    specs = ["", "f", "h" * 0, "()", "(())", "f(fh(f))f", "(h)f", "(f)(f)h", "ff(hh)(h(h))f", "((((((f))))))"]
+    for _ in range(150 if ctx.quick() else 2500):
+        sp = gen_spec(rng, rng.randrange(0, 5), rng.choice([2, 4, 8, 30]), rng.choice([0.0, 0.0, 0.15, 0.4]))
+        if "h" in sp and "f" not in sp:
+            sp = "f" + sp
+        specs.append(sp)
+    specs.append("f" * 3000 + "(" + "f" * 300 + ")" * 1)
+    lines = ["num " + sp if sp else "num" for sp in specs]
+    impl, crash = run_harness(ctx, harness_n, lines)
+    if crash:
+        k, rc, err = crash
+        report(ctx, "crash:num:" + vlib.sha(lines[min(k, len(lines) - 1)])[:10], "fstree_post_process aborted (rc=%d): %s" % (rc, err[-300:]),
+               {"kind": "num", "line": lines[min(k, len(lines) - 1)][:500]})
+        return {"numbering_lines": len(impl)}
+    model = ctx.driver(["c03", "ops"], "\n".join(lines) + "\n")
+    reordered = exact = 0
+    for l, sp, a, b in zip(lines, specs, impl, model):
+        bad = monitor_num({"spec": sp}, a)
+        if bad:
+            report(ctx, "num:" + vlib.sha(l)[:10], "inode numbering violates its specification: %s" % "; ".join(bad)[:300],
+                   {"kind": "num", "line": l[:2000], "impl": a[:500], "model": b[:500]})
+        elif a != b:
+            if "h" in sp:
+                reordered += 1          # reorder_hard_links moved link targets: not modelled, specification holds
+            else:
+                report(ctx, "corr:num:" + vlib.sha(l)[:10], "numbering model and fstree_post_process disagree on a tree without hard links: %s vs %s" % (a[:100], b[:100]),
+                       {"kind": "num", "line": l[:2000], "impl": a[:500], "model": b[:500]}, found_input=False)
+        else:
+            exact += 1
+    return {"numbering_lines": len(lines), "numbering_equal_to_model": exact, "numbering_reordered_by_hard_links": reordered}
+
+
 def run_harness(ctx, harness, lines, timeout=1500):
     text = "\n".join(lines) + "\n"
     r = shx([str(harness)], input=text, env=ctx.san_env(), timeout=timeout)
@@ -334,7 +458,7 @@ def pieces(ctx, harness):
     disagreements = 0
     if crash:
         k, rc, err = crash
-        ctx.violation("crash:pieces:" + vlib.sha(lines[min(k, len(lines) - 1)])[:10],
+        report(ctx, "crash:pieces:" + vlib.sha(lines[min(k, len(lines) - 1)])[:10],
                       "real writer code aborted (rc=%d) on ops line %d: %s" % (rc, k, err[-400:]),
                       {"kind": "ops", "line": lines[min(k, len(lines) - 1)], "stderr": err})
         return {"evaluations": len(impl)}
@@ -352,9 +476,9 @@ def pieces(ctx, harness):
                 old = ctx.driver(["c03", "ops"], l.replace("dirw ", "dirwold ", 1) + "\n")[0]
                 what = "sqfs_dir_writer_add_entry stores a directory entry name of %s bytes (kernel limit 256; size field is 16 bit)" % m.get("longname")
                 if old == a:
-                    ctx.violation(K_D18, what, {"kind": "ops", "line": l[:200] + "...", "impl": a[:200], "witness_model": "dirwold agrees"})
+                    report(ctx, K_D18, what, {"kind": "ops", "line": l[:200] + "...", "impl": a[:200], "witness_model": "dirwold agrees"})
                 else:
-                    ctx.violation("dirw-long:" + vlib.sha(l)[:10], what + " and differs from the witness model", {"kind": "ops", "line": l})
+                    report(ctx, "dirw-long:" + vlib.sha(l)[:10], what + " and differs from the witness model", {"kind": "ops", "line": l})
                 disagreements += 1
                 continue
         else:
@@ -363,26 +487,26 @@ def pieces(ctx, harness):
                 nontrivial.add(vlib.sha(l)[:12])
         if bad:
             disagreements += 1
-            ctx.violation("piece:%s:%s" % (op, vlib.sha(l)[:10]), "real %s violates its specification: %s" % (op, "; ".join(bad)[:300]),
+            report(ctx, "piece:%s:%s" % (op, vlib.sha(l)[:10]), "real %s violates its specification: %s" % (op, "; ".join(bad)[:300]),
                           {"kind": "ops", "line": l, "impl": a[:500], "model": b[:500], "clauses": bad})
         elif a != b:
             disagreements += 1
-            ctx.violation("corr:%s:%s" % (op, vlib.sha(l)[:10]),
+            report(ctx, "corr:%s:%s" % (op, vlib.sha(l)[:10]),
                           "correspondence broke for %s (impl=%s model=%s) but no specification clause fails" % (op, a[:120], b[:120]),
                           {"kind": "ops", "line": l, "impl": a[:2000], "model": b[:2000]}, found_input=False)
     # D8
     if d8crash:
-        ctx.violation("crash:ids65536", "real id table code aborted: %s" % d8crash[2][-300:], {"kind": "ops", "line": d8_lines[0]})
+        report(ctx, "crash:ids65536", "real id table code aborted: %s" % d8crash[2][-300:], {"kind": "ops", "line": d8_lines[0]})
     else:
         for l, a, b, o in zip(d8_lines, d8i, d8m, d8o):
             bad = monitor_idsrange({"n": int(l.split()[1])}, a)
             if bad and a == o:
-                ctx.violation(K_D8, "sqfs_id_table accepts 65536 distinct ids; the u16 id_count written to the superblock wraps (%s)" % a,
+                report(ctx, K_D8, "sqfs_id_table accepts 65536 distinct ids; the u16 id_count written to the superblock wraps (%s)" % a,
                               {"kind": "ops", "line": l, "impl": a, "witness_model": o, "repaired_model": b})
             elif bad:
-                ctx.violation("ids:" + l, "id table: %s (impl=%s)" % (bad, a), {"kind": "ops", "line": l, "impl": a, "model": b})
+                report(ctx, "ids:" + l, "id table: %s (impl=%s)" % (bad, a), {"kind": "ops", "line": l, "impl": a, "model": b})
             elif a != b:
-                ctx.violation("corr:" + l, "correspondence broke for %s: impl=%s model=%s" % (l, a, b), {"kind": "ops", "line": l}, found_input=False)
+                report(ctx, "corr:" + l, "correspondence broke for %s: impl=%s model=%s" % (l, a, b), {"kind": "ops", "line": l}, found_input=False)
     ctx.log("writer pieces: %d op lines, %.1fs" % (len(lines) + len(d8_lines), time.time() - t0))
     return {"evaluations": len(lines) + len(d8_lines), "ops_histogram": hist, "nontrivial": len(nontrivial), "disagreements": disagreements,
             "corpus_lines": ncorpus,
@@ -418,7 +542,7 @@ def codec_probe(ctx, harness):
     out, crash = run_harness(ctx, harness, lines)
     if crash:
         k, rc, err = crash
-        ctx.violation("crash:codec:" + vlib.sha(lines[min(k, len(lines) - 1)])[:10], "compressor backend aborted (rc=%d): %s" % (rc, err[-300:]),
+        report(ctx, "crash:codec:" + vlib.sha(lines[min(k, len(lines) - 1)])[:10], "compressor backend aborted (rc=%d): %s" % (rc, err[-300:]),
                       {"kind": "ops", "line": lines[min(k, len(lines) - 1)][:300]})
         return {"codec_probes": len(out)}
     hist = {}
@@ -429,28 +553,28 @@ def codec_probe(ctx, harness):
         cls = "zero" if ret == 0 else "smaller" if 0 < ret < n else "not-smaller" if ret >= n else "error"
         hist["%s:%s" % (backend, cls)] = hist.get("%s:%s" % (backend, cls), 0) + 1
         if ret > 0 and kv.get("roundtrip") != "ok":
-            ctx.violation("codec-roundtrip:%s:%d" % (backend, n), "%s do_block output does not unpack to its input (size %d, %s)" % (backend, n, kind),
+            report(ctx, "codec-roundtrip:%s:%d" % (backend, n), "%s do_block output does not unpack to its input (size %d, %s)" % (backend, n, kind),
                           {"kind": "ops", "line": l[:400]})
         if cls == "error":
-            ctx.violation("codec-error:%s:%d" % (backend, n), "%s do_block failed with %d on %d bytes" % (backend, ret, n), {"kind": "ops", "line": l[:400]})
+            report(ctx, "codec-error:%s:%d" % (backend, n), "%s do_block failed with %d on %d bytes" % (backend, ret, n), {"kind": "ops", "line": l[:400]})
         if cls == "not-smaller":
             what = "%s do_block returns %d for %d input bytes (contract: 0 when the result is not smaller); e.g. %d %s bytes" % (
                 "lz4" if backend.startswith("lz4") else backend, ret, n, n, kind)
             if backend.startswith("lz4"):
                 if n < 13:
                     short_lz4.append((l, a, d))
-                ctx.violation(K_D11, "comp/lz4.c lz4_comp_block returns LZ4's size even when it is not smaller than the input "
+                report(ctx, K_D11, "comp/lz4.c lz4_comp_block returns LZ4's size even when it is not smaller than the input "
                               "(blocks are then stored larger than their data and flagged compressed)",
                               {"kind": "ops", "line": l[:400], "impl": a})
             else:
-                ctx.violation("codec-contract:%s:%d:%s" % (backend, n, kind), what, {"kind": "ops", "line": l[:400], "impl": a})
+                report(ctx, "codec-contract:%s:%d:%s" % (backend, n, kind), what, {"kind": "ops", "line": l[:400], "impl": a})
     # the witness model of the unrepaired wrapper predicts the short cases byte for byte
     if short_lz4:
         pred = ctx.driver(["c03", "ops"], "\n".join("lz4short " + hx(d) for _, _, d in short_lz4) + "\n")
         for (l, a, d), p in zip(short_lz4, pred):
             kv = dict(x.split("=", 1) for x in a.split() if "=" in x)
             if p != "ret=%s out=%s" % (kv.get("ret"), kv.get("out")):
-                ctx.violation("witness-lz4:" + vlib.sha(l)[:10], "witness model lz4Short does not predict the real wrapper: %s vs %s" % (p, a),
+                report(ctx, "witness-lz4:" + vlib.sha(l)[:10], "witness model lz4Short does not predict the real wrapper: %s vs %s" % (p, a),
                               {"kind": "ops", "line": l}, found_input=False)
     return {"codec_probes": len(lines), "codec_histogram": hist}
 
@@ -609,6 +733,12 @@ def write_tar(t, path):
             if n.get("xattrs"):
                 ti.pax_headers = {"SCHILY.xattr." + k: v.decode("latin-1") for k, v in n["xattrs"] if all(32 <= c < 127 for c in v)}
             tf.addfile(ti, io.BytesIO(data) if data is not None else None)
+        # hard links (tar is the only way to get them into an image on the unrepaired tree; pack files: D10)
+        files = [p for p in sorted(t.nodes) if t.nodes[p]["type"] == "file"]
+        for k, p in enumerate(files[:6]):
+            ti = tarfile.TarInfo("zz_hardlinks/l%d" % k if k % 2 else "a_hardlink_%d" % k)
+            ti.type, ti.linkname, ti.mtime = tarfile.LNKTYPE, p.lstrip("/"), 0
+            tf.addfile(ti)
 
 
 def describe(ctx, unz, img, devblk=4096, want_parse=True):
@@ -625,7 +755,43 @@ def describe(ctx, unz, img, devblk=4096, want_parse=True):
     val = ctx.driver(["c03", "validate", str(devblk)], full)
     par = ctx.driver(["c03", "parse"], desc) if want_parse else []
     rq.unlink()
+    # tie of the `finish` layout model: predicted table starts / bytes_used / file size vs the real superblock
+    line, actual = layout_line(desc, devblk)
+    if line:
+        pred = ctx.driver(["c03", "ops"], line + "\n")[0]
+        if pred != actual:
+            val = val + ["layout-model %s => model %s, image %s" % (line, pred, actual)]
     return val, par
+
+
+def layout_line(desc, devblk):
+    """inputs of the `finish` model read off a description: bytes appended by every step of sqfs_writer_finish"""
+    sup, size, xh = None, 0, None
+    byt, cnt, locs = {}, {}, {}
+    for l in desc.splitlines():
+        f = l.split(" ")
+        if f[0] == "super":
+            sup = bytes.fromhex(f[1])
+        elif f[0] == "size":
+            size = int(f[1])
+        elif f[0] == "m":
+            byt[f[1]] = byt.get(f[1], 0) + int(f[3]) + 2
+            cnt[f[1]] = cnt.get(f[1], 0) + 1
+        elif f[0] == "locs":
+            locs[f[1]] = int(f[3])
+        elif f[0] == "xhdr":
+            xh = f
+    if sup is None or len(sup) < 96:
+        return None, None
+    (idt, xat, ino, dirt, frag, exp) = struct.unpack_from("<6Q", sup, 48)
+    bytes_used = struct.unpack_from("<Q", sup, 40)[0]
+    NOT = 0xFFFFFFFFFFFFFFFF
+    tbl = lambda n: "-" if n is None else "%d,%d" % (byt.get(n, 0), locs.get(n, 0))
+    line = "finish %d %d %d %s %s %s %s %d" % (ino, byt.get("inode", 0), byt.get("dir", 0), tbl("frag" if frag != NOT else None),
+                                             tbl("export" if exp != NOT else None), tbl("id"),
+                                             "-" if xat == NOT else "%d,%d,%d" % (byt.get("xattrkv", 0), byt.get("xattr", 0), locs.get("xattr", 0)), devblk)
+    actual = "%d %d %d %d %d %d %d %d" % (ino, dirt, frag, exp, idt, xat, bytes_used, size)
+    return line, actual
 
 
 def compare_tree(t, parse_lines, via_tar=False):
@@ -685,14 +851,14 @@ def classify(ctx, job, viols, comp):
         code = v.split()[1]
         replay = {"kind": "image", "job": job["desc"], "violation": v[:400]}
         if wrapped:
-            ctx.violation(K_D8, "65536 distinct ids: exit 0 and an image whose id_count is 0: " + v[5:200], replay)
+            report(ctx, K_D8, "65536 distinct ids: exit 0 and an image whose id_count is 0: " + v[5:200], replay)
             continue
         if comp == "lz4" and code in ("meta-not-smaller", "data-not-smaller", "frag-not-smaller", "data-larger-than-input", "frag-larger-than-input"):
-            ctx.violation(K_D11, "lz4 images contain blocks stored compressed that are not smaller than their data: " + v[5:200], replay)
+            report(ctx, K_D11, "lz4 images contain blocks stored compressed that are not smaller than their data: " + v[5:200], replay)
         elif code == "dir-name-too-long":
-            ctx.violation(K_D18, "image contains a directory entry name longer than 256 bytes: " + v[5:160], replay)
+            report(ctx, K_D18, "image contains a directory entry name longer than 256 bytes: " + v[5:160], replay)
         else:
-            ctx.violation("image:%s:%s" % (code, vlib.sha(json.dumps(job["desc"], sort_keys=True))[:10]),
+            report(ctx, "image:%s:%s" % (code, vlib.sha(json.dumps(job["desc"], sort_keys=True))[:10]),
                           "produced image violates an on-disk invariant: " + v[5:300], replay)
     return n
 
@@ -714,7 +880,7 @@ def image_jobs(ctx):
     for n in ([255, 256, 257] if q else [1, 2, 255, 256, 257, 258, 511, 512, 513, 1024, 3000]):
         job({"kind": "bigdir", "n": n, "namelen": rng.choice([4, 24])}, rng.choice(comps), 4096, rng.choice([[], ["-e"]]))
     # listing around 8 KiB of metadata and around 64 KiB (basic vs extended directory inode)
-    for n, nl in ([(30, 250), (250, 250)] if q else [(30, 250), (31, 255), (32, 256), (250, 250), (251, 252), (260, 256), (700, 100)]):
+    for n, nl in ([(30, 250), (254, 256)] if q else [(30, 250), (31, 255), (32, 256), (247, 256), (248, 256), (249, 256), (254, 256), (251, 252), (260, 256), (700, 100)]):
         job({"kind": "bigdir", "n": n, "namelen": nl, "empty": True, "xattr": rng.random() < 0.3}, rng.choice(comps), 4096, rng.choice([[], ["-e"]]))
     job({"kind": "ids", "n": 300}, rng.choice(comps), 4096, [])
     job({"kind": "xattrs", "n": 600 if q else 1100}, rng.choice(comps), 4096, [])
@@ -759,6 +925,7 @@ def run_image_job(ctx, tools, unz, job, idx):
     if r.returncode == 0:
         val, par = describe(ctx, unz, img, job.get("devblk", 4096))
         res["viol"] = [v for v in val if v.startswith("viol ")]
+        res["layout_bad"] = [v for v in val if v.startswith("layout-model ")]
         res["summary"] = next((v for v in val if v.startswith("summary")), "")
         if not job.get("ids65536"):
             res["tree_bad"] = compare_tree(t, par, via_tar=(d["tool"] == "tar2sqfs"))
@@ -801,19 +968,19 @@ def long_name_probe(ctx, tools, unz):
         r = shx([str(tools["gensquashfs"]), "-q", "-f", "-c", "gzip", "-F", str(wd / "pack.txt"), str(img)], env=ctx.san_env(), timeout=120)
         entry = {"len": ln, "rc": r.returncode}
         if r.returncode >= 90 or r.returncode < 0:
-            ctx.violation("crash:longname:%d" % ln, "gensquashfs aborted on a %d byte name: %s" % (ln, r.stderr[-300:]), {"kind": "longname", "len": ln})
+            report(ctx, "crash:longname:%d" % ln, "gensquashfs aborted on a %d byte name: %s" % (ln, r.stderr[-300:]), {"kind": "longname", "len": ln})
         elif r.returncode == 0:
             val, par = describe(ctx, unz, img)
             viol = [v for v in val if v.startswith("viol ")]
             probs = [l for l in par if '"problem"' in l or '"error"' in l]
             entry["viol"] = len(viol) + len(probs)
             if ln > 256:
-                ctx.violation(K_D18, "gensquashfs packs a %d byte file name with exit 0 (%s)" % (ln, (viol + probs + ["image accepted by the validator?!"])[0][:160]),
+                report(ctx, K_D18, "gensquashfs packs a %d byte file name with exit 0 (%s)" % (ln, (viol + probs + ["image accepted by the validator?!"])[0][:160]),
                               {"kind": "longname", "len": ln})
             elif viol or probs:
-                ctx.violation("longname:%d" % ln, "legal %d byte name yields an invalid image: %s" % (ln, (viol + probs)[0][:200]), {"kind": "longname", "len": ln})
+                report(ctx, "longname:%d" % ln, "legal %d byte name yields an invalid image: %s" % (ln, (viol + probs)[0][:200]), {"kind": "longname", "len": ln})
         elif ln <= 256:
-            ctx.violation("longname-refused:%d" % ln, "gensquashfs refuses a legal %d byte name: %s" % (ln, r.stderr[-200:]), {"kind": "longname", "len": ln})
+            report(ctx, "longname-refused:%d" % ln, "gensquashfs refuses a legal %d byte name: %s" % (ln, r.stderr[-200:]), {"kind": "longname", "len": ln})
         res.append(entry)
         import shutil
         shutil.rmtree(wd, ignore_errors=True)
@@ -836,21 +1003,26 @@ def images(ctx, tools, unz):
         key = "%s:%s:%s" % (d["tool"], d["comp"], d["shape"]["kind"])
         hist[key] = hist.get(key, 0) + 1
         if r["rc"] is None or r["rc"] < 0 or r["rc"] >= 90:
-            ctx.violation("crash:image:" + vlib.sha(json.dumps(d, sort_keys=True))[:10], "%s aborted (rc=%s): %s" % (d["tool"], r["rc"], r["stderr"][-300:]),
+            report(ctx, "crash:image:" + vlib.sha(json.dumps(d, sort_keys=True))[:10], "%s aborted (rc=%s): %s" % (d["tool"], r["rc"], r["stderr"][-300:]),
                           {"kind": "image", "job": d})
             continue
         if r["rc"] != 0:
             refused += 1
             if not job.get("expect_refusal_ok"):
-                ctx.violation("refused:" + vlib.sha(json.dumps(d, sort_keys=True))[:10], "%s refused a representable input (rc=%d): %s" % (d["tool"], r["rc"], r["stderr"][-300:]),
+                report(ctx, "refused:" + vlib.sha(json.dumps(d, sort_keys=True))[:10], "%s refused a representable input (rc=%d): %s" % (d["tool"], r["rc"], r["stderr"][-300:]),
                               {"kind": "image", "job": d})
             continue
         nviol += classify(ctx, job, r["viol"], d["comp"])
+        for b in r.get("layout_bad", []):
+            if not (job.get("ids65536") and r["viol"]):
+                report(ctx, "corr:finish:" + vlib.sha(json.dumps(d, sort_keys=True))[:10],
+                       "the layout model of sqfs_writer_finish does not predict the image's table starts: " + b[:300],
+                       {"kind": "image", "job": d, "detail": b}, found_input=False)
         for b in r["tree_bad"][:3]:
-            ctx.violation("tree:" + vlib.sha(json.dumps(d, sort_keys=True) + b)[:10], "independent parser disagrees with the packed tree: " + b[:300],
+            report(ctx, "tree:" + vlib.sha(json.dumps(d, sort_keys=True) + b)[:10], "independent parser disagrees with the packed tree: " + b[:300],
                           {"kind": "image", "job": d, "detail": b}, found_input=True)
         for b in r.get("rd_bad", []):
-            ctx.violation("rdsquashfs:" + vlib.sha(json.dumps(d, sort_keys=True))[:10], b[:300], {"kind": "image", "job": d}, found_input=False)
+            report(ctx, "rdsquashfs:" + vlib.sha(json.dumps(d, sort_keys=True))[:10], b[:300], {"kind": "image", "job": d}, found_input=False)
         for kv in r["summary"].split()[1:]:
             k, v = kv.split("=")
             if k in tot:
@@ -868,17 +1040,18 @@ def build_all(ctx):
     harness = ctx.cc("h_c03", ["h_c03.c", str(lib)], libs=vlib.CODEC_LIBS)
     unz = ctx.cc("unz", ["unz.c"], sanitize=False, libs=["-lz", "-llzma", "-llz4", "-lzstd"])
     tools = {t: ctx.build_tool(t) for t in ("gensquashfs", "tar2sqfs", "rdsquashfs")}
+    tools["h_c03n"] = ctx.cc("h_c03n", ["h_c03n.c", str(lib)], libs=vlib.CODEC_LIBS)
     return harness, unz, tools
 
 
 def run(ctx):
     ok, problems = vlib.proof_gate(ctx, MODULE, REQUIRED)
     if not ok:
-        ctx.violation("proof:C03", "proof obligations of C03 no longer check: " + " | ".join(problems)[:1500],
+        report(ctx, "proof:C03", "proof obligations of C03 no longer check: " + " | ".join(problems)[:1500],
                       {"broken": problems, "theorems_file": "lean/Sqfs/Props/C03.lean"}, found_input=False)
     wok, wlog = ctx.lean_build(["Sqfs.Witness.C03"])
     if not wok:
-        ctx.violation("proof:C03-witness", "Sqfs/Witness/C03.lean no longer builds", {"log": wlog[-1500:]}, found_input=False)
+        report(ctx, "proof:C03-witness", "Sqfs/Witness/C03.lean no longer builds", {"log": wlog[-1500:]}, found_input=False)
     harness, unz, tools = build_all(ctx)
     ctx.log("built library, harness, unz, tools")
     with cf.ThreadPoolExecutor(3) as ex:
@@ -888,13 +1061,16 @@ def run(ctx):
         ctx.log("codec probe done")
         ln = long_name_probe(ctx, tools, unz)
         ctx.log("long-name probe done")
+        c4 = numbering(ctx, tools["h_c03n"])
+        ctx.log("numbering done")
         c1, c3 = f1.result(), f3.result()
     ctx.cov.update(c1)
     ctx.cov.update(c2)
     ctx.cov.update(c3)
+    ctx.cov.update(c4)
     ctx.cov["long_name_probe"] = ln
-    ctx.cov["evaluations"] = c1.get("evaluations", 0) + c2.get("codec_probes", 0) + c3.get("images", 0) + len(ln)
-    ctx.cov["distinct_nontrivial"] = c1.get("nontrivial", 0) + c3.get("images", 0) - c3.get("images_refused", 0)
+    ctx.cov["evaluations"] = c1.get("evaluations", 0) + c2.get("codec_probes", 0) + c3.get("images", 0) + len(ln) + c4.get("numbering_lines", 0)
+    ctx.cov["distinct_nontrivial"] = c1.get("nontrivial", 0) + c3.get("images", 0) - c3.get("images_refused", 0) + c4.get("numbering_equal_to_model", 0)
     ctx.cov["disagreements_checked"] = c1.get("disagreements", 0) + c3.get("validator_violation_lines", 0)
     ctx.cov["rule"] = ("writer pieces: generated entry lists (same block / block changes / inode-number jumps of +-32767..70000 / u32 wrap / long names; "
                        "lengths 1..513 around 256; start offsets around the 8 KiB boundary), meta writer chunk patterns around multiples of 8192 with "
@@ -941,6 +1117,14 @@ def replay(ctx, path):
         for v in r["viol"] + r["tree_bad"]:
             print(v)
         return 1 if r["viol"] or r["tree_bad"] or (r["rc"] or 0) >= 90 else 0
+    if kind == "num":
+        impl, crash = run_harness(ctx, tools["h_c03n"], [rp["line"]])
+        model = ctx.driver(["c03", "ops"], rp["line"] + "\n")
+        print("impl :", impl, "crash:", crash)
+        print("model:", model)
+        bad = monitor_num({"spec": rp["line"][4:]}, impl[0]) if impl else ["crash"]
+        print("clauses:", bad)
+        return 1 if bad or crash or (impl != model and "h" not in rp["line"]) else 0
     if kind == "longname":
         before = len(ctx.violations) + len(ctx.known_hits)
         print(long_name_probe(ctx, tools, unz))
